@@ -9,7 +9,7 @@ Binding: (i)   Compile-call histories emitted by TLC, replayed, judged by C04_Ju
 """
 import copy, json, os
 from concurrent.futures import ThreadPoolExecutor
-from lib import driver as D
+from lib import driver as D, machine as M
 
 MUTANTS = ["sharedTable", "nodeCache", "clockPerCall", "tzFromProcess",
            "expMutatesBase", "registerOverwrites", "sharedEnv", "firstErrorOnly"]
@@ -231,6 +231,17 @@ def run(ctx):
             samples.append({"id": o["id"], "src": o["src"], "out": o["out"]})
     if traces:
         samples.append({"id": traces[0]["id"], "events": traces[0]["events"][:2] + traces[0]["events"][-2:]})
+    # the programs of the whole abstract machine, each compiled once and evaluated on its inputs, on other inputs, and on its
+    # inputs again (lib/machine.py, spec/C04_RepeatJudge.tla): the outcome must not depend on what was evaluated before
+    mobs, _, _ = M.observe(ctx, None)
+    D.write_ndjson(ctx.path("repeat_obs.ndjson"), [{"id": "repeat/" + o["id"], "src": o["src"], "out": {"k": o["out"]["k"]}, "mut": o["mut"]} for o in mobs])
+    rverdicts = D.judge(ctx, "C04_RepeatJudge", "C04_repeatjudge.cfg", ctx.path("repeat_obs.ndjson"), tag="judge-repeat")
+    if len(rverdicts) != len(mobs):
+        raise D.Inconclusive("repeat judge returned %d verdicts for %d programs" % (len(rverdicts), len(mobs)))
+    for o in mobs:
+        by_id["repeat/" + o["id"]] = {"src": o["src"], "out": o["out"], "mut": o["mut"]}
+    allv = allv + rverdicts
+    ctx.extra["machine_programs_repeated"] = len(mobs)
     return D.finish(
         ctx, allv, by_id, evaluations=evaluations,
         rule="histories: every Compile-call history of length 1 (quick) / <= 2 (thorough) over option lists of length <= 2 of "
